@@ -51,7 +51,10 @@ func runC01(c *Ctx) {
 
 // R1: closed caller tables for the ack entry points.
 func c01R1(c *Ctx) {
-	r := c.R.Rule("R1", "K1 who-may-ack: Message.Ack, Source.Ack and ackNacker.Ack are referenced only from the tabled ack-forwarding functions", 13)
+	c01R1As(c, c.R.Rule("R1", "K1 who-may-ack: Message.Ack, Source.Ack and ackNacker.Ack are referenced only from the tabled ack-forwarding functions", 13))
+}
+
+func c01R1As(c *Ctx, r string) {
 	c.WhoMayRef(r, "stream.Message.Ack", c.Fam(c.Fn(r, pStream, "(*Message).Ack")), []string{
 		pStream + ".(*DestinationAckerNode).handleAck",
 		pStream + ".(*FanoutNode).Run",
@@ -213,7 +216,10 @@ func c01R2(c *Ctx) {
 
 // R3: v1 fan-out unanimity.
 func c01R3(c *Ctx) {
-	r := c.R.Rule("R3", "K3/K6 v1 fan-out: the original message is acked only by the branch that brings the remaining-acks counter (initialised to len(out)) to zero, or after the message is already acked", 3)
+	c01R3As(c, c.R.Rule("R3", "K3/K6 v1 fan-out: the original message is acked only by the branch that brings the remaining-acks counter (initialised to len(out)) to zero, or after the message is already acked", 3))
+}
+
+func c01R3As(c *Ctx, r string) {
 	run := c.SSA(r, pStream, "(*FanoutNode).Run")
 	if run == nil {
 		return
@@ -376,7 +382,10 @@ func resolveFreeVar(fv *ssa.FreeVar) ssa.Value {
 
 // R4: v2 destination confirmation count.
 func c01R4(c *Ctx) {
-	r := c.R.Rule("R4", "K3 v2: DestinationTask.Do returns nil only on an edge where the confirmed-ack count reached the number of written positions; acks are validated (count bound + per-position equality) before records are marked", 4)
+	c01R4As(c, c.R.Rule("R4", "K3 v2: DestinationTask.Do returns nil only on an edge where the confirmed-ack count reached the number of written positions; acks are validated (count bound + per-position equality) before records are marked", 4))
+}
+
+func c01R4As(c *Ctx, r string) {
 	do := c.SSA(r, pFunnel, "(*DestinationTask).Do")
 	validate := c.Fn(r, pFunnel, "(*DestinationTask).validateAcks")
 	mark := c.Fn(r, pFunnel, "(*DestinationTask).markBatchRecords")
@@ -745,7 +754,10 @@ func c01R7(c *Ctx) {
 
 // R8: DLQ write before the source ack.
 func c01R8(c *Ctx) {
-	r := c.R.Rule("R8", "K3/K6 DLQ-before-ack: the source ack of a nacked record is dominated by the DLQ write's success edge (v1) / covers exactly the stored prefix positions[:n] with n the DLQ's stored count (v2)", 6)
+	c01R8As(c, c.R.Rule("R8", "K3/K6 DLQ-before-ack: the source ack of a nacked record is dominated by the DLQ write's success edge (v1) / covers exactly the stored prefix positions[:n] with n the DLQ's stored count (v2)", 6))
+}
+
+func c01R8As(c *Ctx, r string) {
 	srcAck := c.Fam(c.Fn(r, pConn, "(*Source).Ack"))
 	// v1
 	if reg := c.SSA(r, pStream, "(*SourceAckerNode).registerNackHandler"); reg != nil {
